@@ -244,6 +244,46 @@ func c07r1(c *Ctx) {
 	} else {
 		c.Fail(rule, "violation", FuncName(r.Entry), "counter write on every successful path", c.P.InstrPos(wtop), "ESDTNFTCreate can succeed without persisting the advanced counter: the next create reuses the nonce")
 	}
+	// the counter is advanced last: once its write has succeeded nothing can make the call fail any more (a create that is
+	// refused after the counter was written — the token paused, the holding frozen, the entry not storable — has burnt a nonce)
+	{
+		wfn := wtop.Parent()
+		we := e
+		for y := wcall.Env; y != nil; y = y.Parent {
+			if y.Fn == wfn {
+				we = y
+			}
+		}
+		cut := map[edge]bool{}
+		for ed, fs := range we.EdgeFacts() {
+			for _, f := range fs {
+				if !f.Lin && !f.Pos && f.Call == wtop && strings.HasPrefix(f.Atom, "ok:") {
+					cut[ed] = true // the write itself failed
+				}
+			}
+		}
+		late := ""
+		for _, ret := range returnsOf(wfn) {
+			if len(ret.Results) == 0 {
+				continue
+			}
+			rv := retval(ret, len(ret.Results)-1)
+			if !isErrorType(rv.Type()) || !definitelyError(rv, ret.Block(), map[ssa.Value]bool{}) {
+				continue
+			}
+			if reachesAvoidingEdges(wfn, wtop.(ssa.Instruction), ret, cut) {
+				late = c.P.InstrPos(ret)
+			}
+		}
+		construct := "nothing can fail after the counter was advanced"
+		if late == "" {
+			c.OK(rule, FuncName(r.Entry), construct, c.P.InstrPos(wtop), "no error exit is reachable from the successful counter write")
+		} else {
+			c.FailX(Oblig{Rule: rule, Func: FuncName(r.Entry), Construct: construct, Pos: c.P.InstrPos(wtop), Kind: "violation",
+				Detail:   "the error exit at " + late + " is reachable after the counter write has succeeded: a create that is refused there has already advanced the counter, so the next successful create is not the previous nonce plus one",
+				Expected: "the counter is written after everything that can refuse the create (in particular after the entry is saved)"})
+		}
+	}
 	// the same value is the metadata nonce, the return datum and the log topic
 	uses := map[string]string{}
 	isUse := func(in ssa.Instruction) (string, bool) {
